@@ -9,14 +9,14 @@ CONSTANTS
   Bodies = {0, 1}
   VerdictVals = {0, 1, 2}
   SummaryVals = {0, 1}
-  Commit <- C3
-  Anc <- Anc3
+  Commit <- C2
+  Anc <- Anc2
   Kinds <- MergeKinds
   FanKinds <- MergeFan
-  Creators = {1, 4}
+  Creators = {4}
   MaxC = 2
   MaxE = 1
-  MaxR = 3
+  MaxR = 2
   MaxRC = 0
   MaxV = 0
   MaxVC = 0
